@@ -10,9 +10,30 @@ CHECKS = {
     "C02": ("fault_enumeration", "crash enumeration over the storage-operation journal with before-or-after model oracle and usability continuation",
             "Every prefix of the journal of mutating storage operations of each recorded history (writer, replica, make_read_only) is materialised, reopened and compared with the model before/after the interrupted call, then a continuation must satisfy the model. Exhaustive per history over crash points; histories bounded-exhaustive + random.",
             "operations atomic and persisted in issue order (the property's fault model)", "3 C02"),
+    "C03": ("exploration", "runtime monitor over writer/replica sessions: honest proofs for well-formed requests must be accepted, replica observation compared with a replica model after every round, convergence check",
+            "Held on every replication session executed: all request sequences up to the bound over small logs for every first-upgrade length, plus random sessions with growth rounds, clears and replica reopens, one 33k and one 70k-block log.",
+            "well-formedness of a request is W1-W5 of DESIGN.md 2.4", "3 C03"),
+    "C04": ("exploration", "alteration battery on replica clones: every single-field alteration, stale proofs and systematic forgeries of every honest proof; must-refuse / unchanged-on-refusal / harmless-on-acceptance oracles",
+            "Held on every altered proof applied (millions per run): complete over fields and node positions per honest proof, bit positions sampled.",
+            "clones verified unchanged (observation and store bytes) after each refusal; numeric fields < 2^40", "3 C04"),
     "C07": ("fault_enumeration", "crash enumeration plus byte-prefix tears of the in-flight write, same oracle",
             "As C02 with every proper byte prefix (<=64 B) or framing-boundary/random prefixes of the write in flight applied before reopening.",
             "a torn write leaves exactly a byte prefix of the intended bytes", "3 C07"),
+    "C08": ("exploration", "runtime monitor: has() probed on every index below length+2 plus far probes and contiguous_length compared with the model after every step on cores spanning 1-3 bitfield pages, replicas holding far-apart blocks, sampled crash recovery",
+            "Held on all scaled histories executed (cores up to 70k/100k blocks, clears straddling page edges, reopen after steps), replicas with gap pages, and sampled crash points.",
+            "get() sampled on big cores; has() exhaustive below length+2", "3 C08"),
+    "C09": ("exploration", "hostile-input monitor: boundary-value cross products of request tuples and altered/arbitrary proofs under catch_unwind with runaway/hang/memory guards, release and overflow-checked debug builds, usability probe afterwards",
+            "Held on tens of millions of create_proof / verify_and_apply_proof calls over 15 core kinds in two builds; no panic, abort, runaway or hang; cores usable afterwards.",
+            "numeric fields < 2^40; hang = per-case watchdog confirmed by solo re-run; worker address space capped at 6 GB", "3 C09"),
+    "C10": ("fault_enumeration", "single-fault injection at every storage operation index (reads included) of each history; error-surfacing and recover-by-reopen oracle; replica and proof-serving variants",
+            "For every history every operation index k is failed once: the call must return Err, reopening must give the before-or-after model state, the rest of the history must satisfy the model.",
+            "a failed operation is not applied; one fault per run", "3 C10"),
+    "C12": ("fault_enumeration", "runtime monitor for NotWritable / zero storage ops on secret-less cores, byte scan of all store images for key material after make_read_only, crash enumeration inside make_read_only, builder gate",
+            "Held on every history executed with make_read_only at every position of short histories (exhaustive) and random positions of long ones, all crash points inside the call, replicas.",
+            "payloads cannot contain key material (pseudo-random)", "3 C12"),
+    "C13": ("exploration", "event monitor: every subscriber drained after every public call and compared with the expected event list; union-of-announcements check",
+            "Held on every writer history and replica session executed (honest, stale, altered proofs, refused appends, appends failed by injected storage faults), 1-3 subscribers.",
+            "subscribers always drained (< 32 pending events)", "3 C13"),
 }
 
 NOT_YET = {}
